@@ -367,9 +367,33 @@ def install_cache_hooks():
             d = fresh[src] = ast.dump(ast.parse(src), include_attributes=True)
         return d
 
+    touched = set()
+
+    def audit():
+        """Re-validate the cached tree of every text parsed since the last audit; on corruption clear the cache so
+        that the blame does not cascade to later consumers. Returns the corrupted source texts."""
+        bad = []
+        for src in list(touched):
+            try:
+                tree = real_parse(src)
+            except SyntaxError:
+                continue
+            REC.cache_checks += 1
+            if ast.dump(tree, include_attributes=True) != fresh_dump(src):
+                bad.append(src)
+        touched.clear()
+        if bad and hasattr(real_parse, "cache_clear"):
+            real_parse.cache_clear()
+        return bad
+
+    REC.cache_audit = audit
+
     @functools.wraps(real_parse)
     def parse(source_code):
         tree = real_parse(source_code)
+        touched.add(source_code)
+        if len(touched) > 3000:
+            touched.clear()
         REC.cache_checks += 1
         try:
             ok = ast.dump(tree, include_attributes=True) == fresh_dump(source_code)
